@@ -161,6 +161,181 @@ def _fold_props(syms, split_rec, folds):
     return props
 
 
+# ---------------------------------------------------------------- the real mokapot.Model inside brew --
+_IDLOG = []
+
+
+def _id_estimator():
+    from sklearn.base import BaseEstimator
+
+    class IdEstimator(BaseEstimator):
+        """scikit-learn estimator that records, per estimator OBJECT, which rows it was fitted on and which
+        rows it scored; its scores are fresh symbols per (number of fits so far, row)."""
+
+        def __init__(self, tag=0):
+            self.tag = tag
+
+        def fit(self, X, y):
+            _IDLOG.append(("fit", id(self), [int(r[0]) for r in X.rows]))
+            return self
+
+        def decision_function(self, X):
+            import z3
+            from symx import symnp, core
+            nfit = sum(1 for e in _IDLOG if e[0] == "fit")
+            ids = [int(r[0]) for r in X.rows]
+            _IDLOG.append(("score", id(self), ids))
+            return symnp.SArray([core.SNum(z3.Real("sc_%d_%d" % (nfit, i))) for i in ids], symnp.float64)
+    return IdEstimator
+
+
+class _IdScores:
+    def __symx_eval__(self, m):
+        import z3
+        from symx import core
+        out, nfit = [], 0
+        for kind, _, ids in _IDLOG:
+            if kind == "fit":
+                nfit += 1
+            elif kind == "score":
+                out += [[nfit, i, core.to_jsonable(core.eval_model(m, z3.Real("sc_%d_%d" % (nfit, i))))] for i in ids]
+        return out
+
+
+def sym_real_model(ctx, cfg):
+    """brew() with the REAL mokapot.Model (Percolator training loop, one iteration) around a recording
+    scikit-learn estimator: in the prediction phase no estimator OBJECT may score a PSM that was in the
+    table of its most recent fit (fold models sharing one estimator, or a model fitted once more after
+    its fold's training, show up here)."""
+    import z3
+    from symx import symnp, sympd, vfs, stubs, core, world
+    from symx.core import SNum, PathOutcome, Unsupported
+    from checks.c11 import tdc_by_spec
+    from checks import c12
+    B, D, P, U, T, Q = brewlib.setup()
+    M, _, _ = c12.setup()
+    vfs.reset()
+    brewlib.HASHES.clear()
+    del _IDLOG[:]
+    n, folds = cfg["n"], cfg["folds"]
+    ds, s = brewlib.make_dataset(ctx, D, n, 0, 2, "pm1")
+    for i, z in enumerate(s["lab"]):
+        ctx.assume(z == z3.BoolVal(i % 2 == 0))
+    for i in range(n - 1):  # fold layout is decided by the other harnesses: distinct spectra in a fixed hash order
+        ctx.assume(z3.And(s["scan"][i] != s["scan"][i + 1],
+                          brewlib.s_crc32(core.SKey((SNum(s["scan"][i]), SNum(s["mass"][i])))).z < brewlib.s_crc32(core.SKey((SNum(s["scan"][i + 1]), SNum(s["mass"][i + 1])))).z))
+    B.CHUNK_SIZE_ROWS_PREDICTION = B.CHUNK_SIZE_READ_ALL_DATA = n + 1
+    stubs.MODE[0] = "submission"
+    B.update_labels = lambda fn, s_, tc, fdr: symnp.SArray([0] * len(s_), symnp.float64)
+    Est = _id_estimator()
+    M.clone = lambda e: e if getattr(e, "is_scaler", False) else Est(e.tag)
+    fdr = z3.Real("train_fdr")
+    ctx.assume(z3.And(fdr > 0, fdr <= 1))
+    real_tdc = Q.__dict__["tdc"]
+    Q.__dict__["tdc"] = tdc_by_spec(ctx)
+    inputs = dict(files=brewlib.dataset_inputs([s]), folds=folds, train_fdr=SNum(fdr), scores=_IdScores(),
+                  hashes=[[brewlib.s_crc32(core.SKey((SNum(s["scan"][i]), SNum(s["mass"][i])))) for i in range(n)]])
+    orig_predict = B._predict
+
+    def marked_predict(*a, **k):
+        _IDLOG.append(("prediction phase", None, []))
+        return orig_predict(*a, **k)
+    B._predict = marked_predict
+    try:
+        model = M.Model(Est(7), scaler="as-is", train_fdr=SNum(fdr), max_iter=1, direction="f1", override=True, shuffle=False, rng=symnp.Generator("identity"))
+        _, models, scores, _ = B.brew([ds], model=model, test_fdr=SNum(z3.Real("test_fdr")), folds=folds, max_workers=1, rng=symnp.Generator("identity"))
+    except Unsupported:
+        raise
+    except (ValueError, RuntimeError) as ex:
+        msg = str(ex)
+        if any(k in msg for k in ("No target PSMs", "No decoy PSMs", "No PSMs", "Model performs worse", "no target PSMs could be found")):
+            return PathOutcome([], inputs, None, "legit_exc", note=type(ex).__name__ + "(" + msg[:40] + ")")
+        return PathOutcome([], inputs, None, "exc", note=type(ex).__name__ + ":" + msg[:80])
+    except Exception as ex:
+        return PathOutcome([], inputs, None, "exc", note=type(ex).__name__ + ":" + str(ex)[:80])
+    finally:
+        Q.__dict__["tdc"] = real_tdc
+        B._predict = orig_predict
+    props = _id_props(_IDLOG, n)
+    props.append(("one_model_per_fold", z3.BoolVal(len(models) == folds and len({id(m) for m in models}) == folds)))
+    return PathOutcome(props, inputs, None)
+
+
+def _id_props(log, n):
+    import z3
+    last_fit_pos = max([i for i, e in enumerate(log) if e[0] == "prediction phase"], default=len(log))
+    last_fit = {}
+    props = []
+    scored = []
+    for pos, (kind, eid, ids) in enumerate(log):
+        if kind == "fit":
+            last_fit[eid] = set(ids)
+        elif kind == "score" and pos > last_fit_pos:
+            seen = sorted(set(ids) & last_fit.get(eid, set()))
+            props.append(("prediction_of_rows_%s_by_an_estimator_that_was_not_fitted_on_them (fitted on %s)" % (ids, sorted(last_fit.get(eid, set()))), z3.BoolVal(not seen and eid in last_fit)))
+            scored += ids
+    props.append(("every_psm_predicted_once", z3.BoolVal(sorted(scored) == list(range(n)))))
+    return props
+
+
+def real_real_model(cfg, inp):
+    import tempfile
+    import numpy as np
+    import mokapot
+    from sklearn.base import BaseEstimator
+    from mokapot.model import Model
+    folds = int(inp["folds"])
+    table = {(int(k), int(r)): float(v) for k, r, v in inp["scores"]}
+    log = []
+
+    class Rec(BaseEstimator):
+        def __init__(self, tag=0):
+            self.tag = tag
+
+        def fit(self, X, y):
+            log.append(("fit", id(self), [int(round(float(r[0]))) for r in np.asarray(X)]))
+            return self
+
+        def decision_function(self, X):
+            nfit = sum(1 for e in log if e[0] == "fit")
+            ids = [int(round(float(r[0]))) for r in np.asarray(X)]
+            log.append(("score", id(self), ids))
+            return np.array([table.get((nfit, i), 0.0) for i in ids], dtype=float)
+    rows = inp["files"][0]
+    scan, mass = realize_keys(rows, inp["hashes"][0])
+    with tempfile.TemporaryDirectory(prefix="verif_c02m_") as d:
+        p, df = brewlib.real_dataset(None, d, 0, dict(rows, scan=scan, mass=mass), "pm1")
+        Bm = __import__("sys").modules["mokapot.brew"]
+        orig_predict = Bm._predict
+
+        def marked_predict(*a, **k):
+            log.append(("prediction phase", None, []))
+            return orig_predict(*a, **k)
+        Bm._predict = marked_predict
+        try:
+            ds = mokapot.read_pin(p, max_workers=1)[0]
+            model = Model(Rec(7), scaler="as-is", train_fdr=float(inp["train_fdr"]), max_iter=1, direction="f1", override=True, shuffle=False, rng=1)
+            _, models, scores, _ = mokapot.brew([ds], model=model, test_fdr=1.0, folds=folds, max_workers=1, rng=scripted_rng([]))
+        except (ValueError, RuntimeError) as ex:
+            return dict(exception=repr(ex), violation=None)
+        except Exception as ex:
+            return dict(exception=repr(ex), violation="brew with a mokapot.Model raised %r" % (ex,))
+        finally:
+            Bm._predict = orig_predict
+    n = len(rows["scan"])
+    last_fit_pos = max([i for i, e in enumerate(log) if e[0] == "prediction phase"], default=len(log))
+    last_fit = {}
+    for pos, (kind, eid, ids) in enumerate(log):
+        if kind == "fit":
+            last_fit[eid] = set(ids)
+        elif kind == "score" and pos > last_fit_pos:
+            seen = sorted(set(ids) & last_fit.get(eid, set()))
+            if seen or eid not in last_fit:
+                return dict(violation="PSMs %s are scored by an estimator object whose most recent fit was on rows %s: they were part of its training table (%d fold models, %d distinct estimator objects)"
+                                      % (seen or ids, sorted(last_fit.get(eid, set())), len(models), len({id(m.estimator) for m in models})))
+    return dict(outputs=None, violation=None)
+
+
 def _some_training_set_empty(split_rec, folds):
     if not split_rec:
         return False
@@ -204,6 +379,13 @@ def harnesses(tier):
         add("n=4,folds=2,prediction chunk symbolic", dict(n=4, folds=2, sym_chunks="prediction"), 0.02)
         add("n=4,folds=2,read chunk symbolic,task order", dict(n=4, folds=2, sym_chunks="read", sched=True), 0.02)
         add("n=3,folds=3,2 files,task order", dict(n=3, folds=3, files=2, sizes=[3, 3], sched=True), 0.02)
+    from checks import c12
+    M = c12.setup()[0]
+    for n, folds in ([(4, 2)] if tier == "quick" else [(4, 2), (6, 2), (6, 3)]):
+        cfg = dict(n=n, folds=folds)
+        hs.append(Harness("brew_with_mokapot_Model[n=%d,folds=%d]" % (n, folds), cfg, sym_real_model, real="real_model", functions=[B.brew, B._fit_model, B._predict, M.Model.fit, M.Model.decision_function, M._find_hyperparameters],
+                          bounds=dict(N=n, folds=folds, max_iter=1), stubs=["estimator -> recording scikit-learn estimator (per OBJECT: rows fitted on, rows scored)", "sklearn.base.clone -> a new estimator object", "tdc -> q-values by the C01 formula", "as the other C02 harnesses"],
+                          assumptions=["alternating labels, distinct spectra in a fixed hash order (fold layout: other harnesses)", "one training iteration, shuffling off"], sample_rate=0.1))
     return hs
 
 
@@ -409,4 +591,4 @@ def _leaks(log, keys, split_rec, folds=None):
     return None
 
 
-REAL = {"brew": real_brew}
+REAL = {"brew": real_brew, "real_model": real_real_model}
